@@ -64,6 +64,10 @@ pub struct GatherPlan {
     /// a registry remembers about a name must not leak into later families
     #[serde(default)]
     pub prelude: Vec<MetricSpec>,
+    /// C16 only: families handed out by one custom collector registered next to the library metrics
+    /// (summaries, explicit timestamps incl. an explicitly set zero, arbitrary strings and floats)
+    #[serde(default)]
+    pub custom: Vec<PFamily>,
 }
 
 const BOUNDS: [f64; 2] = [4.0, 64.0];
@@ -177,7 +181,7 @@ pub fn gen_plan(seed: u64, mixed_kinds: bool) -> GatherPlan {
             prelude.push(t);
         }
     }
-    GatherPlan { env, prefix, common, metrics, orders, hash_seeds, concurrent_gather: focus || r.chance(30), prelude }
+    GatherPlan { env, prefix, common, metrics, orders, hash_seeds, concurrent_gather: focus || r.chance(30), prelude, custom: vec![] }
 }
 
 fn hist_model(v: u32) -> compat::PHist {
@@ -323,6 +327,29 @@ fn register(reg: &Registry, b: &Built) -> std::result::Result<(), String> {
     r.map_err(|e| e.to_string())
 }
 
+/// Collector that hands out pre-built families (one descriptor per family).
+pub struct CustomCollector {
+    descs: Vec<prometheus::core::Desc>,
+    fams: Vec<PFamily>,
+}
+impl CustomCollector {
+    pub fn new(fams: &[PFamily]) -> std::result::Result<CustomCollector, String> {
+        let mut descs = vec![];
+        for f in fams {
+            descs.push(prometheus::core::Desc::new(f.name.clone().unwrap_or_default(), "custom".into(), vec![], HashMap::new()).map_err(|e| e.to_string())?);
+        }
+        Ok(CustomCollector { descs, fams: fams.to_vec() })
+    }
+}
+impl prometheus::core::Collector for CustomCollector {
+    fn desc(&self) -> Vec<&prometheus::core::Desc> {
+        self.descs.iter().collect()
+    }
+    fn collect(&self) -> Vec<proto::MetricFamily> {
+        self.fams.iter().map(compat::to_proto).collect()
+    }
+}
+
 fn unregister(reg: &Registry, b: &Built) -> std::result::Result<(), String> {
     let r = match b {
         Built::C(c) => reg.unregister(Box::new(c.clone())),
@@ -412,6 +439,16 @@ pub fn run_replicas(plan: &GatherPlan, mode: Mode) -> (crate::engine::RunResult,
                         built.push(b);
                     }
                     Err(e) => errors.push(format!("build {}: {}", plan.metrics[i].name, e)),
+                }
+            }
+            if !plan.custom.is_empty() {
+                match CustomCollector::new(&plan.custom) {
+                    Ok(c) => {
+                        if let Err(e) = reg.register(Box::new(c)) {
+                            errors.push(format!("register custom collector: {}", e));
+                        }
+                    }
+                    Err(e) => errors.push(format!("custom collector: {}", e)),
                 }
             }
             let mfs = reg.gather();
